@@ -11,10 +11,11 @@
 static unsigned char T[4096];
 static size_t TL;
 static const char *cur_kind = "?";
-static int cur_mode;
+static int cur_hist;
+static int cur_mode, cur_hist;
 static void describe(sb_t *o)
 {
-	sb_printf(o, "kind=%s mode=%d text=", cur_kind, cur_mode);
+	sb_printf(o, "kind=%s mode=%d tokener-history=%d text=", cur_kind, cur_mode, cur_hist);
 	sb_hex(o, T, TL);
 	sb_puts(o, " ascii=");
 	for (size_t i = 0; i < TL && i < 160; i++)
@@ -37,8 +38,19 @@ static void run_modes(const V *expect, long end_of_value, int numeric_compare)
 		if (m == 2 && end_of_value < 0)
 			continue;
 		cur_mode = modes[m];
+		for (int hist = 0; hist < 4; hist++)
+		{
+		/* the mode is a property of the tokener, not of one call: it must survive earlier use and
+		 * json_tokener_reset (hist 1: reset; 2: an abandoned partial text, reset; 3: a failed text, reset) */
+		cur_hist = hist;
 		struct json_tokener *tok = json_tokener_new();
 		json_tokener_set_flags(tok, modes[m]);
+		if (hist == 2)
+			json_object_put(json_tokener_parse_ex(tok, "[1,{\"a\":\"x", 11));
+		else if (hist == 3)
+			json_object_put(json_tokener_parse_ex(tok, "[1,]x", 6));
+		if (hist)
+			json_tokener_reset(tok);
 		MC_COUNT("calls", 1);
 		errno = mc_errno_pre;
 		struct json_object *o = json_tokener_parse_ex(tok, buf, (int)TL + 1);
@@ -89,7 +101,9 @@ static void run_modes(const V *expect, long end_of_value, int numeric_compare)
 		mc_outcome(mc_hash(&e, sizeof e, (uint64_t)m * 7 + mc_hash_str(cur_kind)));
 		json_object_put(o);
 		json_tokener_free(tok);
+		}
 	}
+	cur_hist = 0;
 	if (vf_live())
 	{
 		mc_violation("leak", "%ld blocks live", vf_live());
